@@ -264,7 +264,9 @@ func (w *Worker) intrinsic(fn *ssa.Function, args []Val) (Val, bool) {
 		if !w.onceDone[key] {
 			w.onceDone[key] = true
 			f := args[1].(*Closure)
+			w.inOnce++
 			w.callFunction(f.Fn, nil, f.Bind)
+			w.inOnce--
 		}
 		return nil, true
 	case "fmt.Errorf":
